@@ -86,11 +86,12 @@ def main():
         if args.keep and result['confirmed']:
             dest = os.path.join(ROOT, 'seeded', name)
             os.makedirs(dest, exist_ok=True)
-            shutil.copy(patch, os.path.join(dest, 'patch.diff'))
-            shutil.copy(demo, os.path.join(dest, 'demo.py'))
             notes = os.path.join(args.srcdir, 'notes.md')
-            if os.path.exists(notes):
-                shutil.copy(notes, os.path.join(dest, 'notes.md'))
+            if os.path.abspath(args.srcdir) != os.path.abspath(dest):
+                shutil.copy(patch, os.path.join(dest, 'patch.diff'))
+                shutil.copy(demo, os.path.join(dest, 'demo.py'))
+                if os.path.exists(notes):
+                    shutil.copy(notes, os.path.join(dest, 'notes.md'))
             meta = {
                 'breaks_property': args.prop,
                 'origin': 'sub-agent given only the property text and a scratch worktree of /repo (nothing from /verif)',
